@@ -722,7 +722,7 @@ namespace
         {
           DenseVector<DT, IT> d{Index(n)};
           for(size_t i = 0; i < n; ++i) d.elements()[i] = DT(value(vs, 1, Index(i)));
-          V t{Index(1)};
+          V t(Index(1), DT(3));   // (size, value) constructor; convert() replaces the content
           t.convert(d);
           V u(d);
           bool ok = size_t(t.template size<Perspective::pod>()) == n && size_t(u.template size<Perspective::pod>()) == n && size_t(t.size()) == nb;
